@@ -433,6 +433,10 @@ def match_cases(draw, isa):
     if mode == "count":
         if ops and draw(st.booleans()):
             ops = ops[:-1]
+        elif isa == "aarch64" and ops and ops[-1] and ops[-1][0] == "mem":
+            # a register after an AArch64 memory operand is its post-index register ("[sp], x19"), not one more
+            # operand: the additional operand goes in front
+            ops = [["reg", "x", None]] + ops
         else:
             ops = ops + [["reg", "gpr", "rax"] if isa == "x86" else ["reg", "x", None]]
     mnem = tgt["name"]
@@ -516,6 +520,10 @@ def check_case(case):
         line = guard(r.parsers[isa].parse_line, text.strip(), 1, what="parse_line(%r)" % text)
         if line.mnemonic != case["mnemonic"]:
             return {"nontrivial": False, "classes": ["skipped-mnemonic-not-parsed-as-written"]}
+        if len(line.operands) != len(case["operands"]):
+            # the text denotes other operands than intended (parser fidelity is C09/C10's subject)
+            return {"nontrivial": False, "classes": ["skipped-text-denotes-other-operands"],
+                    "excluded": {"text-denotes-other-operands": 1}}
         def entry_index(f):
             return None if f is None else int(round(f.latency - 100))
 
